@@ -120,8 +120,10 @@ def _diff(a, b):
     db = {x[1]: x for x in b if len(x) > 2}
     for k in sorted(set(da) | set(db)):
         if da.get(k) != db.get(k):
-            la = (da.get(k) or ('', '', 0, ''))[3].splitlines()
-            lb = (db.get(k) or ('', '', 0, ''))[3].splitlines()
+            def text(e):
+                if e is None: return ['<absent>']
+                return ['<symlink to %s>' % e[2]] if e[0] == 'l' else e[3].splitlines()
+            la, lb = text(da.get(k)), text(db.get(k))
             d = [(x, y) for x, y in itertools.zip_longest(la, lb) if x != y][:3]
             return '%s: %s' % (k, d)
     return 'tree structure'
